@@ -59,7 +59,8 @@ func (k *Key) Private() *packet.PrivateKey {
 }
 
 func (k *Key) Validate() error {
-	if k.public == nil {
+	// a null entry in the list of keys of a version decodes as a nil *Key
+	if k == nil || k.public == nil {
 		return fmt.Errorf("nil public key")
 	}
 	if !k.public.CanSign() {
